@@ -200,7 +200,57 @@ def ctor_allow_pre(rel: str, cls: str, logger: str) -> bool:
     return v
 
 
+MERGE_BLOCK = """all_{0} = OrderedDict(zip(args.{0}, repeat(None)))
+for url in req_args.{0}:
+    all_{0}[url] = None
+args.{0} = list(all_{0})"""
+
+BUILD_REPO_CALL = ("build_repo(args.solutions, args.upgrade_packages, args.sources, args.excluded_sources, args.find_links, "
+                   "args.index_urls, wheeldir, extra_index_urls=args.extra_index_urls, no_index=args.no_index, "
+                   "allow_prerelease=args.allow_prerelease)")
+
+
+def read_compile_main_merge() -> None:
+    """compile_main: under `if extra_parameters:` the index / extra-index URLs of the requirements files are
+    merged behind the command-line ones with an OrderedDict (first occurrence wins), nothing else assigns
+    args.index_urls / args.extra_index_urls, and build_repo receives exactly those attributes."""
+    fn = T.func(T.parse(CMDLINE), "compile_main")
+    guards = [n for n in ast.walk(fn) if isinstance(n, ast.If) and _src(n.test) == "extra_parameters"]
+    if len(guards) != 1:
+        raise TranslateError("compile_main: `if extra_parameters:` block not found")
+    body = guards[0].body
+    texts = [_src(st) for st in body]
+    for attr in ("index_urls", "extra_index_urls"):
+        want = MERGE_BLOCK.format(attr).split("\n")
+        want_stmts = [want[0], want[1] + "\n" + want[2], want[3]]
+        idx = [i for i, t in enumerate(texts) if t == want_stmts[0]]
+        if len(idx) != 1 or texts[idx[0]:idx[0] + 3] != want_stmts:
+            raise TranslateError(f"compile_main: order-preserving merge of {attr} not found")
+    # no other assignment to the two attributes anywhere in compile_main
+    assigned = []
+    for n in ast.walk(fn):
+        targets = []
+        if isinstance(n, ast.Assign):
+            targets = n.targets
+        elif isinstance(n, (ast.AugAssign, ast.AnnAssign)):
+            targets = [n.target]
+        for t in targets:
+            if _src(t) in ("args.index_urls", "args.extra_index_urls"):
+                assigned.append(_src(n))
+    if sorted(assigned) != sorted(["args.index_urls = list(all_index_urls)", "args.extra_index_urls = list(all_extra_index_urls)"]):
+        raise TranslateError(f"compile_main: args.index_urls / args.extra_index_urls assigned elsewhere: {assigned}")
+    for n in ast.walk(fn):
+        if isinstance(n, ast.Call) and isinstance(n.func, ast.Attribute) and _src(n.func.value) in ("args.index_urls", "args.extra_index_urls"):
+            raise TranslateError("compile_main: in-place mutation of the index URL lists: " + _src(n))
+    calls = [n for n in ast.walk(fn) if isinstance(n, ast.Call) and _src(n.func) == "build_repo"]
+    if len(calls) != 1 or _src(calls[0]) != BUILD_REPO_CALL:
+        raise TranslateError("compile_main: build_repo call changed")
+    if calls[0].lineno < guards[0].lineno:
+        raise TranslateError("compile_main: build_repo is called before the merge")
+
+
 def gen_c04_consts() -> str:
+    read_compile_main_merge()
     pooled, stack = read_build_repo()
     read_multi()
     sol = ctor_allow_pre(SOLUTION, "SolutionRepository", "solution")
@@ -216,4 +266,9 @@ def gen_c04_consts() -> str:
     b += "(* MultiRepository.get_dist and PooledCandidateMultiRepository (no get_dist override; tag = (idx, extra_sort_info))\n   matched the transcribed text exactly *)\n"
     b += "Definition multi_first_answer_wins : bool := true.\n"
     b += "Definition pooled_overrides_get_dist : bool := false.\n"
+    b += "(* compile_main: OrderedDict merge (command line first, then file order, first occurrence wins) under\n   `if extra_parameters:`; build_repo receives args.index_urls / args.extra_index_urls *)\n"
+    b += "Definition index_merge_ordered : bool := true.\n"
+    b += "Definition extra_merge_ordered : bool := true.\n"
+    b += "Definition merge_guarded_by_file_options : bool := true.\n"
+    b += "Definition build_repo_gets_merged_urls : bool := true.\n"
     return b
